@@ -96,6 +96,10 @@ func C14(c *core.Ctx) error {
 			combos = append(combos, genCombo{template: "file://" + filepath.Join(tdir, "probe.templ"), data: core.M{}, formatter: f, placement: p, extraCfg: extra, dataName: "probe"})
 		}
 	}
+	// one probe output per interface as well (fresh import registry per interface); identity assertions are
+	// only written in batch mode, here the output must compile
+	combos = append(combos, genCombo{template: "file://" + filepath.Join(tdir, "probe.templ"), data: core.M{}, formatter: "noop", placement: "inpkg-test", extraCfg: extra, dataName: "probe", perFile: true},
+		genCombo{template: "file://" + filepath.Join(tdir, "probe.templ"), data: core.M{}, formatter: "noop", placement: "separate", extraCfg: extra, dataName: "probe", perFile: true})
 	knownCase := map[string]bool{}
 	for _, k := range c.KnownKeys() {
 		knownCase[strings.SplitN(k, "|", 2)[0]] = true
@@ -105,6 +109,9 @@ func C14(c *core.Ctx) error {
 	core.ParallelFor(len(combos), func(i int) {
 		g := combos[i]
 		gname := fmt.Sprintf("probe %s %s", g.formatter, g.placement)
+		if g.perFile {
+			gname += " file-per-interface"
+		}
 		for _, part := range []string{"main", "quarantine"} {
 			var cases []shapes.Case
 			for _, cs := range all {
@@ -150,6 +157,13 @@ func C14(c *core.Ctx) error {
 			}
 			for _, e := range rest {
 				c.Report(fmt.Sprintf("file|probe-output|%s", gocheck.Signature(e.Msg)), fmt.Sprintf("[%s] probe output does not compile (not attributable to one interface): %s", gname, e), map[string]any{"combo": gname})
+			}
+			if g.perFile {
+				mu.Lock()
+				decided += len(cases) - len(failed)
+				mu.Unlock()
+				m.Remove()
+				continue
 			}
 			// each method exactly once, accessor flags consistent
 			seen := map[string]int{}
